@@ -181,8 +181,8 @@ var defResp = pbt.Def[resplife.Case]{Name: "responder-state-vs-queue-under-fault
 
 func TestProp(t *testing.T) {
 	outerT = t
-	pbt.Check(t, run, defDuo, 4000, 400000)
-	pbt.Check(t, run, defResp, 4000, 400000)
+	pbt.Check(t, run, defDuo, 4000, 200000)
+	pbt.Check(t, run, defResp, 4000, 200000)
 }
 
 func TestReplay(t *testing.T) {
